@@ -67,6 +67,16 @@ tasks:
   name:
     cmds:
       - '"$VERIF_ARGVDUMP" "$OUT" {{q .NAME}}'
+  twice:
+    cmds:
+      - task: deferred
+        vars: {V: '{{.X}}', O: '{{.OUT}}.1'}
+      - task: deferred
+        vars: {V: '{{.Y}}', O: '{{.OUT}}.2'}
+  deferred:
+    cmds:
+      - defer: '"$VERIF_ARGVDUMP" "{{.O}}" {{shellQuote .V}}'
+      - 'true'
 `
 
 func readArgv(path string) ([]string, bool) {
@@ -193,6 +203,19 @@ func c19VarUnit() *Unit {
 				}
 			}
 		}
+		// a deferred command that quotes a variable, the task called twice in one run with different values
+		for _, pair := range [][2]string{{"a b", "c'd"}, {"$(id)", "*"}, {"x", ""}} {
+			os.Remove(out + ".1")
+			os.Remove(out + ".2")
+			args := []string{"twice", "X=" + pair[0], "Y=" + pair[1]}
+			_, se, rc := RunCLI(dir, []string{"OUT=" + out, "VERIF_ARGVDUMP=" + os.Getenv("VERIF_ARGVDUMP")}, "", args...)
+			n++
+			g1, ok1 := readArgv(out + ".1")
+			g2, ok2 := readArgv(out + ".2")
+			if rc != 0 || !ok1 || !ok2 || len(g1) != 1 || len(g2) != 1 || g1[0] != pair[0] || g2[0] != pair[1] {
+				add(vlab.V("C19", "quoted_value_not_verbatim", "deferred:second_call", fmt.Sprintf("task twice X=%q Y=%q: the deferred commands received %s and %s (status %d %q)", pair[0], pair[1], short(g1), short(g2), rc, firstN(se, 120))), args)
+			}
+		}
 		// NAME=value is split at the first '=' only
 		for _, val := range []string{"a=b=c", "=", "==", "a=", "=b", "x y=z", "1=2=3=4"} {
 			os.Remove(out)
@@ -232,6 +255,8 @@ func c19InitUnit() *Unit {
 			{label: "existing-file", args: []string{"--init", "Custom.yml"}, prepare: map[string]string{"Custom.yml": "mine\n"}, code: 101, keep: "Custom.yml"},
 			{label: "dir-with-taskfile", args: []string{"--init", "sub"}, prepare: map[string]string{"sub/Taskfile.yml": "mine\n"}, code: 101, keep: "sub/Taskfile.yml"},
 			{label: "cwd-with-taskfile", args: []string{"--init"}, prepare: map[string]string{"Taskfile.yml": "mine\n"}, code: 101, keep: "Taskfile.yml"},
+			{label: "ext-only-existing", args: []string{"--init", ".yaml"}, prepare: map[string]string{"Taskfile.yaml": "mine\n"}, code: 101, keep: "Taskfile.yaml"},
+			{label: "sub-ext-only-existing", args: []string{"--init", "sub/.yml"}, prepare: map[string]string{"sub/Taskfile.yml": "mine\n"}, code: 101, keep: "sub/Taskfile.yml"},
 			{label: "path-and-dashdash", args: []string{"--init", "A.yml", "--", "B.yml"}, want: "A.yml"},
 			{label: "only-after-dashdash", args: []string{"--init", "--", "B.yml"}, want: "Taskfile.yml"},
 		}
